@@ -987,6 +987,41 @@ func oracleC08(r *Rng, n int, thorough bool, seeds []string) *OracleResult {
 			}
 		})
 	}
+	if n > 0 {
+		// "owns its memory" also for the 5001st distinct value of a kind this process has
+		// decoded: a bounded table of values seen before (interning, a cache) must not
+		// hand out the caller's bytes once it is full (seeded change C08-17: an intern
+		// table for interface ids that returned its argument when it had 4096 entries)
+		rr := NewRng(r.U64())
+		many := 5000
+		for _, code := range knownCodes6 {
+			code := code
+			safely(func() {
+				for k := 0; k < many; k++ {
+					w := genOpt6(rr, code, 0, false).ToBytes()
+					if k%8 == 0 && len(w) > 0 {
+						w = append(w[:len(w):len(w)], byte(k), byte(k>>8)) // opaque tails differ too
+					}
+					dhcpv6.ParseOption(dhcpv6.OptionCode(code), w)
+				}
+				for k := 0; k < 3; k++ {
+					c.opt6(code, genOpt6(rr, code, 1, false).ToBytes(), "after-many-distinct-values")
+				}
+			})
+		}
+		safely(func() {
+			for k := 0; k < many; k++ {
+				rfc1035label.FromBytes(genLabels(rr).ToBytes())
+				dhcpv6.DUIDFromBytes(genDUID(rr).ToBytes())
+			}
+			for k := 0; k < 3; k++ {
+				c.misc("label", genLabels(rr).ToBytes())
+				c.misc("duid", genDUID(rr).ToBytes())
+				c.v4(genPkt4(rr, true).ToBytes(), "after-many-distinct-values")
+				c.v6(genMsg6(rr, 2, false).ToBytes(), "after-many-distinct-values")
+			}
+		})
+	}
 	for t := range c.cov {
 		c.res.Tags["type:"+t]++
 	}
